@@ -412,16 +412,14 @@ Proof.
     + apply Z.ltb_lt in E.
       assert (Hk1 : k + 1 = n * (k / n) + (k mod n + 1)) by lia.
       f_equal.
-      * rewrite Hk1 at 1. rewrite Z.mul_comm, Z.add_comm, Z_mod_plus_full. apply Z.mod_small; lia.
-      * f_equal. rewrite Hk1 at 1. rewrite Z.mul_comm, Z.add_comm, Z_div_plus_full by lia.
-        rewrite Z.div_small by lia. reflexivity.
+      * apply (Z.mod_unique_pos (k + 1) n (k / n) (k mod n + 1)); lia.
+      * f_equal. apply (Z.div_unique_pos (k + 1) n (k / n) (k mod n + 1)); lia.
     + apply Z.ltb_ge in E.
       assert (Hk1 : k + 1 = n * (k / n + 1) + 0) by lia.
       assert (Hmod : (k + 1) mod n = 0).
-      { rewrite Hk1. rewrite Z.mul_comm, Z.add_comm, Z_mod_plus_full. apply Z.mod_0_l; lia. }
+      { symmetry. apply (Z.mod_unique_pos (k + 1) n (k / n + 1) 0); lia. }
       assert (Hdiv : (k + 1) / n = k / n + 1).
-      { rewrite Hk1 at 1. rewrite Z.mul_comm, Z.add_comm, Z_div_plus_full by lia.
-        rewrite Z.div_0_l by lia. ring. }
+      { symmetry. apply (Z.div_unique_pos (k + 1) n (k / n + 1) 0); lia. }
       assert (Hq0 : 0 <= k / n) by (apply Z.div_pos; lia).
       assert (Hq : k / n + 1 < prod ns) by nia.
       rewrite Hmod, Hdiv. destruct ns as [|n' ns'].
